@@ -292,25 +292,32 @@ func (c *workceptorCommand) ControlFunc(ctx context.Context, nc controlsvc.Netce
 		}
 		cfr := make(map[string]interface{})
 		cfr["unitid"] = worker.ID()
+		verifPoint("submit.allocated", "")
 		stdin, err := os.OpenFile(path.Join(worker.UnitDir(), "stdin"), os.O_CREATE+os.O_WRONLY, 0o600)
 		if err != nil {
 			return nil, err
 		}
+		verifPoint("submit.stdin_created", "")
 		worker.UpdateBasicStatus(WorkStatePending, "Waiting for Input Data", 0)
+		verifPoint("submit.before_ack", "")
 		err = cfo.ReadFromConn(fmt.Sprintf("Work unit created with ID %s. Send stdin data and EOF.\n", worker.ID()), stdin, &controlsvc.SocketConnIO{})
 		if err != nil {
 			worker.UpdateBasicStatus(WorkStateFailed, fmt.Sprintf("Error reading input data: %s", err), 0)
 
 			return nil, err
 		}
+		verifPoint("submit.input_read", "")
 		err = stdin.Close()
 		if err != nil {
 			worker.UpdateBasicStatus(WorkStateFailed, fmt.Sprintf("Error reading input data: %s", err), 0)
 
 			return nil, err
 		}
+		verifPoint("submit.stdin_closed", "")
 		worker.UpdateBasicStatus(WorkStatePending, "Starting Worker", 0)
+		verifPoint("submit.before_start", "")
 		err = worker.Start()
+		verifPoint("submit.started", "")
 		if err != nil && !IsPending(err) {
 			worker.UpdateBasicStatus(WorkStateFailed, fmt.Sprintf("Error starting worker: %s", err), 0)
 
